@@ -184,7 +184,7 @@ fn check_orders(acc: &mut Acc, kind: usize, base: &[u32], orders: &[Vec<usize>],
                 }
             }
             if !found {
-                monitor::machinery_fail(&format!("C05 fast path problem on {:?} not reproduced by the judge", w));
+                super::unreproduced(&format!("C05 fast path problem on {:?} not reproduced by the judge", w));
             }
         }
     }
@@ -308,6 +308,37 @@ pub fn run(ctx: &Ctx, rep: &mut Report) {
         rep.guard(&format!("{}-slot multisets: count equals C({}+{}-1,{})", n, m, n, n), acc.hist[H_BLANKS..H_BLANKS + 8].iter().sum::<u64>() == expect, format!("{} vs {}", acc.hist[H_BLANKS..H_BLANKS + 8].iter().sum::<u64>(), expect));
         rep.guard(&format!("{}-slot multisets: every blank count 0..={} present", n, n), (0..=n).all(|b| acc.hist[H_BLANKS + b] > 0), format!("{:?}", &acc.hist[..8]));
         rep.add_space(&name, &acc, t0, "with repetition; every rotation so that a blank / repeated card visits every slot");
+    }
+
+    // (2b) every slot order of a handful of base hands (distinct cards; one, two and three blanks; a repeated card)
+    for n in [5usize, 6, 7] {
+        let t0 = Instant::now();
+        let kind = monitor::kind_id(&format!("{}.*", AnyHand::size_name(n)));
+        let orders = crate::engine::enumerate::permutations(n);
+        let al = sub_alphabet(20);
+        let mut bases: Vec<Vec<u32>> = Vec::new();
+        for shift in 0..4usize {
+            let cards: Vec<u32> = (0..n).map(|i| al[1 + (i * 3 + shift * 5) % 19]).collect();
+            bases.push(cards.clone());
+            for blanks in 1..=3usize {
+                let mut b = cards.clone();
+                for k in 0..blanks {
+                    b[(k * 2 + shift) % n] = 0;
+                }
+                bases.push(b);
+            }
+            let mut dup = cards.clone();
+            dup[n - 1] = dup[0];
+            bases.push(dup);
+        }
+        let accs = par_parts(bases.len(), |bi| {
+            let mut acc = Acc::new(H_LEN);
+            check_orders(&mut acc, kind, &bases[bi], &orders, 5);
+            acc
+        });
+        let mut acc = Acc::merged(accs);
+        acc.nontrivial = acc.hist[H_NT] * orders.len() as u64;
+        rep.add_space(&format!("all {} slot orders of {} base {}-slot hands x 5 entry points", orders.len(), bases.len(), n), &acc, t0, "distinct cards, one/two/three blanks in varying slots, a repeated card - in every arrangement of all the slots");
     }
 
     // (3) the public product-search helper, every key
